@@ -24,6 +24,8 @@ pub struct Cfg {
     strategy: u8, // 0 first available, 1 round robin, 2 prefer healthy, 3 custom (last usable), 4 custom returning None
     ticks: usize,
     script: Script,
+    /// with_timeout(Duration::MAX): checks never time out ("slow" results simply arrive late)
+    huge_timeout: bool,
 }
 
 const INTERVAL_US: u64 = 20_000;
@@ -53,7 +55,7 @@ pub fn gen(rng: &mut Prng) -> Cfg {
         }
         script.push(v);
     }
-    Cfg { n, fail_thr: if defaults { 2 } else { rng.range(1, 4) as u32 }, succ_thr: if defaults { 1 } else { rng.range(1, 4) as u32 }, defaults, strategy: rng.below(5) as u8, ticks, script }
+    Cfg { n, fail_thr: if defaults { 2 } else { rng.range(1, 4) as u32 }, succ_thr: if defaults { 1 } else { rng.range(1, 4) as u32 }, defaults, strategy: rng.below(5) as u8, ticks, script, huge_timeout: rng.chance(0.06) }
 }
 
 fn st(s: HealthStatus) -> u8 {
@@ -113,7 +115,7 @@ pub fn run(cfg: &Cfg, seed: u64) -> (Arc<World>, Vec<Obs>, Vec<usize>) {
                 }
             }
         };
-        let mut b = HealthCheckWrapper::builder().with_checker(checker).with_interval(Duration::from_micros(INTERVAL_US)).with_initial_delay(Duration::from_micros(INITIAL_US)).with_timeout(Duration::from_micros(TIMEOUT_US));
+        let mut b = HealthCheckWrapper::builder().with_checker(checker).with_interval(Duration::from_micros(INTERVAL_US)).with_initial_delay(Duration::from_micros(INITIAL_US)).with_timeout(if cfg.huge_timeout { *[Duration::MAX, Duration::from_secs(u64::MAX / 2)].get(cfg.n % 2).unwrap() } else { Duration::from_micros(TIMEOUT_US) });
         for i in 0..cfg.n {
             b = b.with_context(i, format!("res{i}"));
         }
@@ -129,6 +131,8 @@ pub fn run(cfg: &Cfg, seed: u64) -> (Arc<World>, Vec<Obs>, Vec<usize>) {
         });
         let wrapper = b.build();
         let (n, ticks) = (cfg.n, cfg.ticks);
+        // with an unbounded timeout the slow check (11 ms) is not cut off: observe after it
+        let observe_after = if cfg.huge_timeout { TIMEOUT_US + 7000 } else { TIMEOUT_US + 1000 };
         let obs = o2.clone();
         let w2 = w.clone();
         let a = sim.actor(0, move || {
@@ -136,7 +140,7 @@ pub fn run(cfg: &Cfg, seed: u64) -> (Arc<World>, Vec<Obs>, Vec<usize>) {
                 wrapper.start().await;
                 for tick in 0..ticks {
                     // every check of this tick has finished (or timed out) by now
-                    let at = INITIAL_US + tick as u64 * INTERVAL_US + TIMEOUT_US + 1000;
+                    let at = INITIAL_US + tick as u64 * INTERVAL_US + observe_after;
                     tokio::time::sleep_until(w2.t0() + Duration::from_micros(at)).await;
                     let mut statuses = vec![];
                     for i in 0..n {
@@ -221,6 +225,14 @@ pub fn judge(cfg: &Cfg, obs: &[Obs]) -> Report {
                     f[r] = 0;
                     status[r] = 1;
                 }
+                4 if cfg.huge_timeout => {
+                    // the slow check is not cut off: it reports healthy
+                    s[r] += 1;
+                    f[r] = 0;
+                    if s[r] >= cfg.succ_thr {
+                        status[r] = 0;
+                    }
+                }
                 2 | 4 => {
                     if res == 4 {
                         timeouts += 1;
@@ -290,7 +302,7 @@ pub fn judge(cfg: &Cfg, obs: &[Obs]) -> Report {
     rep.count("status_flips", flips);
     rep.count("timed_out_checks", timeouts);
     rep.count("intervals", obs.len() as u64);
-    rep.bucket(format!("{strat} n={} fail={} succ={}{}", cfg.n, cfg.fail_thr, cfg.succ_thr, if cfg.defaults { " (defaults)" } else { "" }));
-    rep.nontrivial = flips >= 2 && timeouts >= 1;
+    rep.bucket(format!("{strat} n={} fail={} succ={}{}", cfg.n, cfg.fail_thr, cfg.succ_thr, if cfg.defaults { " (defaults)" } else if cfg.huge_timeout { " (timeout huge)" } else { "" }));
+    rep.nontrivial = flips >= 2 && (timeouts >= 1 || cfg.huge_timeout);
     rep
 }
